@@ -429,6 +429,15 @@ func Read(r io.Reader) (*Font, error) {
 		info.IsBold = true
 	}
 
+	// The subfamily name written for this font may include the word "Bold"
+	// because of the weight class.  Apply the same rule to it, so that
+	// reading a font is idempotent under Write.
+	if sub := info.Subfamily(); strings.Contains(sub, "Bold") &&
+		!strings.Contains(sub, "Semi Bold") &&
+		!strings.Contains(sub, "Extra Bold") {
+		info.IsBold = true
+	}
+
 	if !(info.IsItalic || info.IsBold) {
 		if os2Info != nil {
 			info.IsRegular = os2Info.IsRegular
